@@ -91,7 +91,10 @@ LogExpect(kind, A, B) ==
     [] kind = "log_offset" -> <<"div", <<"add", LevelB(A, X),
                                   <<"mul", Q(KOf(LDef(a).fam), 1), <<"log10", <<"div", RefTerm(LDef(a).ref), RefTerm(LDef(b).ref)>>>>>>>>, PrefixTerm(B)>>
 \* tolerance <<rel, abs>> as exponents of ten; the direct B <-> Np constant is documented to four digits only
-LogTol(kind) == IF kind \in {"b_np", "np_b"} THEN <<-4, -9>> ELSE <<-9, -9>>
+\* a LINEAR result is judged relatively only (it may be 1e-30); a level may be 0, hence an absolute part
+LogTol(kind) == IF kind \in {"b_np", "np_b"} THEN <<-4, -9>>
+                ELSE IF kind \in {"log_lin", "log_ratio"} THEN <<-9, -300>>
+                ELSE <<-9, -9>>
 \* inputs for which the formula is defined ("physically meaningful"): linear levels and ratios are positive
 NeedsPositive(kind) == kind \in {"lin_log", "ratio_log"}
 
